@@ -2,7 +2,9 @@
 (* Trace validation: call/return histories recorded from the real core/syncx objects (one goroutine or
    several racing) must be linearizable with respect to Atomics.tla.  The linearization point Lin(p) is a
    silent action (TLC searches for a placement); the callback events cleanRun and gen do not know which
-   call they run in, TLC picks the process.  No action for "stuck".                                  *)
+   call they run in, TLC picks the process.  No action for "stuck" (a call that did not come back: e.g. a
+   Lock on a free SpinLock, a Guard on a Barrier a panicking function left locked, a receive from Done() after
+   Close).                                                                                            *)
 EXTENDS Atomics, TraceKit
 
 VARIABLE l
@@ -13,7 +15,7 @@ IsEvent(e) == l <= Len(Trace) /\ E.e = e /\ l' = l + 1
 Procs == DOMAIN pend
 
 TReset     == IsEvent("reset")     /\ E.m = "atom" /\ E.kind \in Kinds
-                                   /\ AReset(E.kind, IF E.kind = "abool" THEN E.s0 ELSE St0(E.kind))
+                                   /\ AReset(E.kind, St0(E.kind, E.s0))
 TCallStart == IsEvent("callStart") /\ CallStartOK(E.p, E.op) /\ CallStartEff(E.p, E.op, E.a, E.b)
 TCallEnd   == IsEvent("callEnd")   /\ CallEndOK(E.p, E.res) /\ CallEndEff(E.p)
 TEnter     == IsEvent("enter")     /\ EnterOK(E.p) /\ EnterEff(E.p)
